@@ -135,6 +135,7 @@ type Exec struct {
 	Concrete            term.Model // non-nil: v* primitives return these constants
 	Inc                 *solver.Proc
 	UseSolver           bool
+	RecordGlobals       bool // record reads/writes of package-level variables as events (C19)
 	PruneCalls          bool // solver-check every outcome returned to the harness function
 	KeepHarnessOutcomes bool
 	NoOutcomeMerge      bool
